@@ -23,7 +23,10 @@ def audio_files():
 
 
 def child(spec):
-    p = subprocess.run([sys.executable, CHILD, json.dumps(spec)], stdout=subprocess.PIPE, stderr=subprocess.PIPE, timeout=600)
+    # "optimize": the interpreter mode in which `assert` statements are compiled away (python -O): a refusal must not
+    # depend on them
+    cmd = [sys.executable] + (["-O"] if spec.get("optimize") else []) + [CHILD, json.dumps(spec)]
+    p = subprocess.run(cmd, stdout=subprocess.PIPE, stderr=subprocess.PIPE, timeout=600)
     try:
         return json.loads(p.stdout.decode().strip().split("\n")[-1])
     except Exception:  # noqa: BLE001
@@ -64,6 +67,8 @@ def run_c15(out, tier):
             for flag in ("default", "false"):
                 s = {"op": op, "base": base, "dest": "existing", "flag": flag, "fault": None, "spell": spell}
                 specs.append(dict(s, audio=audio_files()[:1]) if op == "import" else s)
+    # every refusal case once more under `python -O`
+    specs += [dict(s, optimize=True) for s in specs if s["dest"] != "absent" and s["flag"] != "true" and not s.get("spell")]
     for r in pmap(specs):
         spec = r["spec"]
         out.case("c15:" + spec["op"], json.dumps(desc(spec), sort_keys=True).encode(), sample={"spec": desc(spec), "exception": r.get("exception")})
@@ -79,8 +84,8 @@ def run_c15(out, tier):
             if a != b:
                 out.violations.append(dict(d, oracle="an existing file is not replaced unless overwriting was requested, however the destination is spelled"))
         elif existed and not optin:
-            if r["exception"] != "FileExistsError":
-                out.violations.append(dict(d, oracle="destination exists and overwriting was not requested: the call must refuse with FileExistsError"))
+            if not r["exception"]:
+                out.violations.append(dict(d, oracle="destination exists and overwriting was not requested: the call must refuse with an error" + (" (also when the interpreter runs with -O)" if spec.get("optimize") else "")))
             elif a != b:
                 out.violations.append(dict(d, oracle="a refused write leaves every file byte-identical"))
         else:
